@@ -34,6 +34,7 @@ void inst(gray8_view_t const& a, gray8_view_t const& b, gray16_view_t const& c, 
   dilate(e, f, k, 2);
   median_filter(a, b, 3); median_filter(e, f, 5);
 }
+void inst2(rgb8_view_t const& e, bgr8_view_t const& x){ threshold_optimal(e, x); median_filter(e, x, 3); }
 '''
 
 
@@ -110,7 +111,7 @@ def run(rep):
     d = C.astdump(src, os.path.join(wd, "c16.json"),
                   ["^boost::gil::threshold_", "^boost::gil::detail::threshold_impl", "^boost::gil::detail::otsu_impl", "^boost::gil::detail::morph",
                    "^boost::gil::(dilate|erode|opening|closing|morphological_gradient|top_hat|black_hat|median_filter)$", "^boost::gil::detail::filter_median_impl",
-                   "^boost::gil::detail::difference"])
+                   "^boost::gil::detail::difference", "^boost::gil::detail::physical_channel_index$", "^boost::gil::detail::__nth_channel_view_basic::make$"])
     fns = d["functions"]
     spec = json.load(open(os.path.join(C.SPEC, "c16_threshold.json")))
     rep.units.append("c16_driver.cpp: %d instantiated functions" % len(fns))
@@ -323,10 +324,21 @@ def run(rep):
             short = c["callee"]["name"].split("::")[-1]
             args = [rename(R.key(a), f) for a in c["args"]]
             seq.append(short + "(" + ",".join(a.split("::")[-1] for a in args) + ")")
-        if seq == want:
+        # (which channel index is handed to nth_channel_view is T7's subject)
+        if [re.sub(r"physical_channel_index\((\w+)\)", r"\1", q) for q in seq] == want:
             rep.ok("T5-composition", nm, seq)
         else:
             rep.violation("T5-composition", "T5:" + nm, R.fn_where(f), {"calls": seq, "documented": want})
+    # ---------------------------------------------------------------- T7 channel pairing
+    rep.rule("T7 threshold_optimal / median_filter (instantiated rgb8 -> bgr8): the per-channel calls pair the source and destination channels of the same colour: "
+             "nth_channel_view counts in memory order, so either both views have one layout or each side indexes with detail::physical_channel_index<its own view>(k); "
+             "the helper returns element k of the view's channel mapping")
+    R.channel_pairing(rep, fns, "T7-channel-pairing", ("boost::gil::threshold_optimal", "boost::gil::median_filter"), "obligations:T7")
+    rep.floor("obligations:T7", 4)
+    # ---------------------------------------------------------------- T8 empty views
+    rep.rule("T8 threshold_optimal, median_filter, detail::morph: every nth_channel_view call (which forms a reference to pixel (0,0)) is dominated by the test that the source view has pixels")
+    R.nonempty_guard(rep, fns, "T8-nonempty", ("boost::gil::threshold_optimal", "boost::gil::median_filter", "boost::gil::detail::morph"), "obligations:T8")
+    rep.floor("obligations:T8", 3)
     # ---------------------------------------------------------------- T6 staging in morph()
     rep.rule("T6 detail::morph(src, dst, ...): dilate/erode pass the same view as src and dst, so every channel is computed from src into the scratch image "
              "(morph_impl(nth_channel_view(src,i), nth_channel_view(view(scratch),i)) for i in [0, num_channels)) and dst is written once, by copy_pixels(view(scratch), dst) "
